@@ -288,7 +288,15 @@ def check_e2e(res, prop, tier, rng):
             res.coverage['exhaustive'] = True
     cross_check_oracle(res, run)
     refine_violations(res, prop)
-    finish_verdict(res, broken, corr, 'L0 parse_float bits')
+    if prop in ('C01', 'C02', 'C05'):
+        # what the harness observes are 8 feature combinations built with the hook feature on: code that
+        # is conditional on anything else (or on the hook itself), or a changed Cargo.toml, is not observed
+        from .props3 import config_inventory_check
+        inv = config_inventory_check()
+        res.suite_stats['config_inventory'] = inv['summary']
+        if inv['diff']:
+            corr.append({'case': 'build-configuration inventory of /repo (cfg / cfg! / env! predicates in every source file and front-end copy, functional lines of Cargo.toml, build scripts) differs from the one the harness configurations were chosen for: the compiled code the checks observe may not be the code a user builds', 'diff': inv['diff'][:20]})
+    finish_verdict(res, broken, corr, 'L0 parse_float bits + build-configuration inventory')
 
 
 # ====================================================================== C03 round trip
